@@ -423,6 +423,16 @@ class YAMLSpecification(Specification):
         errors = validator.iter_errors(instance)
         for error in errors:
             path = ".".join(str(key) for key in error.path)
+            if "propertyNames" in error.schema_path:
+                raise jsonschema.ValidationError(
+                    "In {0}, the key '{1}' must be a string, but found "
+                    "'{2}'.".format(
+                        ".".join([parent_key, path]) if path else parent_key,
+                        error.instance,
+                        type(error.instance).__name__,
+                    )
+                )
+
             if error.validator == "additionalProperties":
                 unrecognized = (
                     re.search(r"\((.+) (?:was|were) unexpected\)",
